@@ -73,7 +73,12 @@ def initial_docs(rng):
     t2.blocks += [test_block(rng, "test_r", ["foo", "bar"]), test_block(rng, "test_undecl", [], body=("foo()", "y = qux"))]
     sib = Doc("b/conftest.py")
     sib.blocks.append(fixture_block(rng, "foo"))
-    for d in (c0, c1, fx, t1, t2, sib):
+    # a module whose tests request nothing: only body references (no entry in the per-file usages map)
+    tb = Doc("a/test_body.py")
+    tb.blocks += [test_block(rng, "test_only_body", [], body=("foo()", "z = baz"))]
+    if rng.random() < 0.5:
+        tb.blocks.append(test_block(rng, "test_other_body", [], body=("assert qux",)))
+    for d in (c0, c1, fx, t1, t2, sib, tb):
         docs[d.path] = d
     return docs
 
